@@ -209,6 +209,9 @@ func genStream(r *lib.Rng, kind string, i int) Stream {
 		}
 		for c := 0; c < nc; c++ {
 			n := size()
+			if kind == "ts" && r.Chance(1, 12) {
+				n = r.Range(20000, 150000) // a key frame's worth: far above every internal buffer but the frame buffer
+			}
 			if kind == "tcp" && r.Chance(1, 3) {
 				n = r.Range(1, 2*s.MaxFrame+10) // around the buffer size: some flushes must truncate
 			}
